@@ -150,6 +150,98 @@ def install_noise_patches() -> None:
         orig = getattr(NoiseConnection, name)
         register_patch(orig, _wrap(orig))
 
+    # `PACK_NONCE = partial(Struct("<LQ").pack, 0)` in _frame_helper/noise.py: a pre-compiled
+    # Struct's bound `pack` is C and would realise (enumerate) a symbolic nonce counter.  A call of a
+    # functools.partial whose function is `Struct(fmt).pack` is routed to the module-level
+    # `struct.pack(fmt, ...)`, for which CrossHair has an exact symbolic model (int.to_bytes); the
+    # format is read from the object the repository created, so the layout stays the repo's.
+    # Every other partial behaves as functools.partial does.
+    import functools
+    import struct
+
+    def _partial_call(self, *a, **k):
+        f = self.func
+        with NoTracing():
+            owner = getattr(f, "__self__", None)
+            is_pack = isinstance(owner, struct.Struct) and getattr(f, "__name__", "") == "pack"
+            fmt = owner.format if is_pack else None
+        if is_pack and not k and not self.keywords:
+            return struct.pack(fmt, *self.args, *a)
+        return f(*self.args, *a, **{**self.keywords, **k})
+
+    register_patch(functools.partial.__call__, _partial_call)
+
+    # f"...{byte}" in error messages: stock CrossHair realises a symbolic int in __format__, which
+    # turns "for every marker byte" into a 255-deep enumeration chain.  With an empty format spec
+    # format(n) == repr(n) for ints, and CrossHair's SymbolicInt.__repr__ is symbolic (decimal
+    # digits as a LazyIntSymbolicStr), so the message stays symbolic.  Other specs: stock behaviour.
+    _orig_format = bl.SymbolicInt.__format__
+
+    import re as _re
+
+    _HEX_SPEC = _re.compile(r"^(0?)([0-9]{0,2})x$")
+
+    def _hex_format(n, zero: bool, width: int):
+        """format(n, "[0][width]x") for a non-negative symbolic int, digit by digit (forks only on the
+        number of digits); the digit character is an if-then-else term, not a fork."""
+        cps = []
+        cur = n
+        while True:
+            d = cur % 16
+            with NoTracing():
+                if isinstance(d, bl.SymbolicInt):
+                    cp = bl.SymbolicInt(z3.If(d.var < 10, d.var + 48, d.var + 87))
+                else:
+                    cp = d + 48 if d < 10 else d + 87
+            cps.append(cp)
+            cur = cur // 16
+            if cur == 0:
+                break
+        while len(cps) < width:
+            cps.append(48 if zero else 32)
+        cps.reverse()
+        return bl.LazyIntSymbolicStr(cps)
+
+    def _symbolic_int_format(self, fmt):
+        """None when the spec is not handled symbolically."""
+        with NoTracing():
+            if type(fmt) is not str:
+                return None
+            plain = fmt == ""
+            mm = None if plain else _HEX_SPEC.match(fmt)
+        if plain:
+            return self.__repr__()
+        if mm is not None and self >= 0:
+            return _hex_format(self, mm.group(1) == "0", int(mm.group(2) or "0"))
+        return None
+
+    def _int_format(self, fmt):
+        r = _symbolic_int_format(self, fmt)
+        if r is not None:
+            return r
+        return _orig_format(self, fmt)
+
+    bl.SymbolicInt.__format__ = _int_format
+
+    # the builtin format() (also what f-string interception calls) is patched by CrossHair with a
+    # version that deep-realises its argument first; route symbolic ints with an empty spec as above
+    from crosshair import core as _cc
+
+    _stock_format = _cc._PATCH_REGISTRATIONS.get(format)
+
+    def _format(obj, format_spec=""):
+        with NoTracing():
+            is_sym_int = isinstance(obj, bl.SymbolicInt)
+        if is_sym_int:
+            r = _symbolic_int_format(obj, format_spec)
+            if r is not None:
+                return r
+        if _stock_format is not None:
+            return _stock_format(obj, format_spec)
+        return format(obj, format_spec)
+
+    _cc._PATCH_REGISTRATIONS[format] = _format
+
 
 def install() -> None:
     global _INSTALLED
